@@ -154,6 +154,8 @@ def gen_cases(tier, seed, shard, nshards):
                  ["L NOP\n", " LDA #L/0\n"], [" LDX #65535*2\n"], ["L NOP\n", " FDB L*70000\n"], ["L NOP\n", " LEAX L/0,PCR\n"],
                  ["Z EQU 0\n", "L NOP\n", " LDA [L/Z,PCR]\n"], [" ORG $F000\n", "L NOP\n", " LDX #L+$8000\n", " LEAX L*3,PCR\n", " FDB L+$7000\n"],
                  ["Z EQU 0\n", " RMB Z\n", "E RMB 0\n", " FCB 1\n"], [" ORG $8000\n", "L NOP\n", " JMP L*2\n", " LDA L+L\n"],
+                 ["A EQU $FFFF\n", "Q EQU A+1\n", " LDX #Q\n"], ["A EQU 40000\n", "Q EQU A*2\n"], ["B EQU $F000\n", "S EQU $2000\n", " ORG B+S\n", " NOP\n"],
+                 ["A EQU -32768\n", "Q EQU A*2\n", " FDB Q\n"], ["A EQU 2\n", "Q EQU A/0\n"], ["Q EQU Q+1\n"], ["A EQU B\n", "B EQU A\n", " LDA #A\n"],
                  # text beyond ASCII: a string character that is no byte, a Latin-1 character (one byte), non-ASCII digits and names
                  [" FCC \"\u0100\"\n"], [" NAM T\n", " FCC \"A\u0113\"\n", "N NOP\n"], [" FCC /caf\u00e9 \u20ac/\n"], [" FCC \"\U0001F600\"\n"],
                  [" LDA #\u0661\u0662\n"], ["caf\u00e9 NOP\n", " JMP caf\u00e9\n"], [" FCB '\u0100\n"], [" LDA #'\u00e9\n"]]
